@@ -61,6 +61,20 @@ def check(R):
         R.cut('P2', rc, 'answer `the packet is for us` (non-false result)', [bb for bb, k, pl_ in prims.result_defs(rc) if not (k == 'agg' and pl_.get('var') == 'Ok' and pl_['a'] and pl_['a'][0].get('k', {}).get('v') == 0) and not (k == 'call' and 'from_residual' in pl_.get('f', ''))],
               'Session::is_for_rx holds', lambda: R.call_guard(rc, SESS + '::is_for_rx'))
 
+        # the RX predicate also answers "mine" when the exchange's own session is gone (so that the waiter wakes up and fails): the waiter
+        # must then leave the packet alone - claiming it (clear_on_drop(true)) is cut, after the wake-up, by "our session still exists".
+        # Otherwise the message of ANOTHER exchange is erased; it is already in its session's receive window, so its retransmissions are
+        # acknowledged as duplicates and it is never delivered
+        E3 = 'embassy_futures::select::Either3'
+        rco = async_body(R, 'transport::exchange::ExchangeId::recv')
+        first, _oth = prims.enum_local_edges(F, rco, lambda pl: rco.local_ty(pl[0]).startswith(E3), E3, ['First'])
+        R.floor('Either3::First arm of the select in ExchangeId::recv', len(first), 1)
+        claims = [t.bb for t in rco.calls() if any(n.endswith('::clear_on_drop') for n in t.callee_names())]
+        R.floor('packet.clear_on_drop(..) in ExchangeId::recv', len(claims), 1)
+        for (frm, to) in sorted(first):
+            R.cut_from('P2', rco, to, 'claim the packet in the RX slot (clear_on_drop(true))', claims, 'the session of this exchange still exists (with_state ok)',
+                       lambda: R.call_guard(rco, 'transport::exchange::ExchangeId::with_state'))
+
     # ---- b --------------------------------------------------------------------
     with R.clause('b'):
         pass
